@@ -125,7 +125,7 @@ class Iter(object):
 def run_iteration(I, fn, st, args, eb_src, eb_dst):
     st.frames = []
     st.events = []
-    for k in [k for k in st.flags if k.startswith('wbegin:') or k.startswith('wend:')]:
+    for k in [k for k in st.flags if isinstance(k, str) and (k.startswith('wbegin:') or k.startswith('wend:'))]:
         del st.flags[k]
     st = I.start(fn, args, st)
     outs = I.run(st)
@@ -135,7 +135,7 @@ def run_iteration(I, fn, st, args, eb_src, eb_dst):
         it.kind, it.st, it.ret, it.info = o.kind, o.st, o.val, o.info
         it.din = it.dout = it.dlen = None
         it.stores = [e for e in o.st.events if e[0] == 'out-store']
-        bk = [k for k in o.st.flags if k.startswith('wbegin:')]
+        bk = [k for k in o.st.flags if isinstance(k, str) and k.startswith('wbegin:')]
         b = o.st.flags.get(bk[0]) if len(bk) == 1 else None
         e = o.st.flags.get('wend:' + bk[0][7:]) if len(bk) == 1 else None
         if o.kind == 'backedge' and b and e:
